@@ -11,7 +11,7 @@ import (
 )
 
 func init() {
-	props["C03"] = &propDef{run: runC03, explanation: "Structural clause of C03 decided statically: in ParseCreateOperation the returned unique suffix is GetUniqueSuffix applied to the very suffix-data object that was decoded from the request (json.Unmarshal target, hence independent of member order and whitespace), validated and stored in the model; the success term of GetUniqueSuffix is b64(mhEnc(H(algs[0],JCS(suffixData)),algs[0])) behind a non-empty-algorithm guard; ParseOperation stores ID = namespace + \":\" + suffix; outside batch mode acceptance lies behind IsValidModelMultihash(schema.Delta, schema.SuffixData.DeltaHash) on the same decoded request. Not decided: collision resistance; that Transform implements JCS (C05). (E1) ValidateSuffixData / ValidateDelta are read-only: nothing reachable from their inputs is written before hashing. (K2) the JSON member names and omitempty options of the create-side models are the wire format's (closed table). The parser and the applier never assign a protocol parameter (C03.K1). Nothing is stored into the decoded request after decoding."}
+	props["C03"] = &propDef{run: runC03, explanation: "Structural clause of C03 decided statically: in ParseCreateOperation the returned unique suffix is GetUniqueSuffix applied to the very suffix-data object that was decoded from the request (json.Unmarshal target, hence independent of member order and whitespace), validated and stored in the model; the success term of GetUniqueSuffix is b64(mhEnc(H(algs[0],JCS(suffixData)),algs[0])) behind a non-empty-algorithm guard; ParseOperation stores ID = namespace + \":\" + suffix; outside batch mode acceptance lies behind IsValidModelMultihash(schema.Delta, schema.SuffixData.DeltaHash) on the same decoded request. Not decided: collision resistance; that Transform implements JCS (C05). (E1) ValidateSuffixData / ValidateDelta are read-only: nothing reachable from their inputs is written before hashing. (K2) the JSON member names and omitempty options of the create-side models are the wire format's (closed table). The parser and the applier never assign a protocol parameter (C03.K1). Nothing is stored into the decoded request after decoding. C07.K1's sink rule for MultihashAlgorithms runs here."}
 	props["C06"] = &propDef{run: runC06, explanation: "Structural clause of C06 decided statically: success terms of CalculateModelMultihash, CalculateID, GetMultihash, GetMultihashCode and the encoder equal the documented normal forms (b64 = base64.RawURLEncoding in both directions); IsValidModelMultihash recomputes with the code decoded from the supplied hash over the supplied model and accepts only on the false edge of computed != supplied, with decode errors propagated; IsComputedUsingMultihashAlgorithms returns true only behind a successful decode and an equality between the decoded code and one of the supplied codes; the hash leaf contracts (code table with error default, single Write, Sum(nil)). Not decided: 'equal iff JSON values equal' beyond this shape (needs JCS injectivity and collision resistance). GetMultihash / GetMultihashCode refuse only what the base64 / multihash decoders refuse."}
 }
 
@@ -147,6 +147,10 @@ func (c *Ctx) wireNames(rule string, models ...string) {
 }
 
 func runC03(c *Ctx) {
+	// "the suffix is the multihash … with the first configured algorithm": what the parser does with the configured
+	// algorithm list is part of this check — it is read element-wise and compared, never reordered (C07.K1)
+	c.only(func(c *Ctx) { c.configSinks() }, "C07.K1::sink:MultihashAlgorithms")
+	c.Min("C07.K1", 1)
 	c.wireNames("C03.K2", "CreateRequest", "SuffixDataModel", "DeltaModel")
 	c.Min("C03.K2", 3+4+2+6)
 	pco := c.Method(pParser, "Parser", "ParseCreateOperation")
@@ -347,6 +351,10 @@ func (c *Ctx) checkParseDispatch(rule string) {
 					picked++
 					site = pc.call
 					a := pc.call.Call.Args
+					// (a method expression takes the receiver first: the parser's own)
+					if len(a) == 3 && c.Path(a[0], nil) == "$0" {
+						a = a[1:]
+					}
 					if len(a) != 2 || c.Path(a[0], nil) != "$2" || c.Path(a[1], nil) != "$3" {
 						okArgs = false
 					}
